@@ -28,6 +28,7 @@ func init() {
 		// cleanup after the connection has ended
 		goTableRule(c, "C11/GO-TABLE")
 		onErrorCancelRule(c, "C11/ONERROR-CANCEL")
+		initBeforePublishRule(c, "C11/INIT-BEFORE-PUBLISH", "server", 1)
 		lockOrderRule(c, "C11/LOCK-ORDER", 3)
 		c11OrphanSession(c)
 		c11CloseRegistered(c)
